@@ -18,6 +18,7 @@ import StimModel.Model.DemText
 import StimModel.Model.Record
 import StimModel.Model.Amps
 import StimModel.Model.XorVec
+import StimModel.Model.RefTree
 /-! Line-protocol dispatcher: one request line in, one answer line out. -/
 namespace Stim.Driver
 open Stim Stim.Wire
@@ -702,6 +703,50 @@ def xorvecCmd (toks : List String) : String :=
   | ["items", l, xs] => natListStr ((natList xs).foldl (fun acc x => xorItem x acc) (natList l))
   | ["sort", l] => natListStr (xorSort (natList l))
   | ["subset", a, b] => if isSubsetSorted (natList a) (natList b) then "1" else "0"
+  | _ => "bad-request"
+
+open Stim.RefTree in
+mutual
+/-- tree on the wire: `T <prefix bits|-> <reps> <number of children> <child>*` (fuel = number of tokens) -/
+def parseTreeFuel : Nat → List String → Option (Tree × List String)
+  | 0, _ => none
+  | f+1, "T" :: pre :: r :: n :: rest =>
+    match r.toNat?, n.toNat? with
+    | some reps, some k => (parseKidsFuel f k rest []).map fun (cs, toks) => (Tree.mk (bitsOf pre) cs reps, toks)
+    | _, _ => none
+  | _+1, _ => none
+def parseKidsFuel : Nat → Nat → List String → List Tree → Option (List Tree × List String)
+  | 0, _, _, _ => none
+  | _+1, 0, toks, acc => some (acc.reverse, toks)
+  | f+1, j+1, toks, acc => match parseTreeFuel f toks with
+    | some (t, toks') => parseKidsFuel f j toks' (t :: acc)
+    | none => none
+end
+
+open Stim.RefTree in
+def parseTreeAux (toks : List String) : Option (Tree × List String) := parseTreeFuel (2 * toks.length + 2) toks
+
+open Stim.RefTree in
+mutual
+def treeWire : Tree → String
+  | .mk pre ch reps => String.intercalate " " ["T", strOfBits pre, toString reps, toString ch.length] ++ treeWireList ch
+def treeWireList : List Tree → String
+  | [] => ""
+  | t :: ts => " " ++ treeWire t ++ treeWireList ts
+end
+
+open Stim.RefTree in
+/-- `reftree simplified|decompress|size|empty <tree>`, `reftree factor <k> <tree>`, `reftree index <i> <tree>` -/
+def reftreeCmd (toks : List String) : String :=
+  match toks with
+  | "simplified" :: rest => (match parseTreeAux rest with | some (t, []) => treeWire t.simplified | _ => "bad-request")
+  | "decompress" :: rest => (match parseTreeAux rest with | some (t, []) => strOfBits t.decompress | _ => "bad-request")
+  | "size" :: rest => (match parseTreeAux rest with | some (t, []) => toString t.size | _ => "bad-request")
+  | "empty" :: rest => (match parseTreeAux rest with | some (t, []) => (if t.isEmpty then "1" else "0") | _ => "bad-request")
+  | "factor" :: k :: rest => (match parseTreeAux rest, k.toNat? with | some (t, []), some kk => treeWire (t.tryFactorize kk) | _, _ => "bad-request")
+  | "index" :: i :: rest => (match parseTreeAux rest, i.toNat? with
+      | some (t, []), some ii => (match t.decompress[ii]? with | some b => (if b then "1" else "0") | none => "x")
+      | _, _ => "bad-request")
   | _ => "bad-request"
 
 def xorClosure (vs : List (List Bool)) : List (List Bool) :=
@@ -1577,6 +1622,7 @@ def answer (toks : List String) : String :=
   | "record" :: "run" :: rest => recordRun rest
   | "amps" :: rest => ampsCmd rest
   | "xorvec" :: rest => xorvecCmd rest
+  | "reftree" :: rest => reftreeCmd rest
   | "demsem" :: "check" :: rest => demsemCheck rest
   | "demsem" :: "decomp" :: rest => demsemDecomp rest
   | "demsample" :: "check" :: rest => demsampleCheck rest
